@@ -454,7 +454,9 @@ def items():
             Hole("token_reference.leading_trivia().collect()", "verif::lead_refs(token_reference)", kind="wrapper", why="impl Iterator::collect"),
             Hole("token_reference.trailing_trivia().collect()", "verif::trail_refs(token_reference)", kind="wrapper", why="impl Iterator::collect"),
         ]),
-        Fn(TU, "trivia_is_newline", mode="stub", note="str::find on the characters of a whitespace token; only chooses between the wanted symbol's own whitespace and an indent"),
+        Fn(TU, "trivia_is_newline", contract="ensures r == is_nl(*trivia),", edits=[
+            Hole("characters.find('\\n').is_some()", "crate::verif::str_contains_char(characters.as_str(), '\\n')", kind="wrapper", why="str::find with a char pattern: does the text contain the character"),
+        ]),
         Fn(GEN, "format_symbol", contract="""
     ensures
         tr_token(r) == tr_token(*wanted_symbol), //# C02.symbol_token
@@ -506,10 +508,157 @@ def items():
             After("pop_until_no_whitespace(&mut formatted_leading_trivia);", "proof { lemma_cms_ws_suffix(l0, formatted_leading_trivia@.len() as int); assert(l0.take(formatted_leading_trivia@.len() as int) == formatted_leading_trivia@); }\n let ghost l1 = formatted_leading_trivia@;"),
             After("formatted_leading_trivia.push(create_newline_trivia(ctx));", "proof { lemma_cms_push_ws(l1, formatted_leading_trivia@.last()); assert(formatted_leading_trivia@ =~= l1.push(formatted_leading_trivia@.last())); }"),
         ]),
+        # ---- join_trailing_trivia (trivia_util.rs, written for the D28 repair): comments that end up on one line
+        Raw("""
+pub open spec fn is_nl(t: Token) -> bool { match token_type_of(t) { TokenType::Whitespace { characters } => count_char(ss_view(characters), '\\n') > 0, _ => false } }
+pub open spec fn is_lc(t: Token) -> bool { token_type_of(t) is SingleLineComment }
+pub open spec fn is_cmt(t: Token) -> bool { token_type_of(t) is SingleLineComment || token_type_of(t) is MultiLineComment }
+// no comment stands behind a single line comment on the same line
+pub open spec fn line_ok(v: Seq<Token>) -> bool { forall|i: int, j: int| 0 <= i < j < v.len() && is_lc(#[trigger] v[i]) && is_cmt(#[trigger] v[j]) ==> nl_between(v, i, j) }
+pub open spec fn nl_between(v: Seq<Token>, i: int, j: int) -> bool { exists|k: int| i < k < j && is_nl(#[trigger] v[k]) }
+// the list ends on a line that a single line comment has taken over
+pub open spec fn open_at_end(v: Seq<Token>) -> bool { exists|i: int| 0 <= i < v.len() && is_lc(#[trigger] v[i]) && !nl_between(v, i, v.len() as int) }
+pub proof fn lemma_newline_for_is_nl(t: Token, c: Config)
+    requires is_newline_for(t, c), ensures is_nl(t), token_type_of(t) is Whitespace,
+{
+    match token_type_of(t) {
+        TokenType::Whitespace { characters } => {
+            let s = ss_view(characters);
+            match c.line_endings {
+                LineEndings::Unix => { reveal_strlit("\\n"); assert(s.len() == 1 && s.last() == '\\n'); },
+                LineEndings::Windows => { reveal_strlit("\\r\\n"); assert(s.len() == 2 && s.last() == '\\n'); },
+            }
+        },
+        _ => {}
+    }
+}
+""", module="formatters::trivia_util"),
+        Fn(TU, "trivia_is_whitespace", contract="ensures r == (token_type_of(*trivia) is Whitespace),"),
+        Fn(TU, "trivia_is_singleline_comment", contract="ensures r == is_lc(*trivia),"),
+        Fn(TU, "trivia_is_comment", contract="ensures r == is_cmt(*trivia),"),
+        Fn(TU, "join_trailing_trivia", contract="""
+    ensures cms(r@) == cms(first@ + second@), //# C03.join_keeps_comments
+            line_ok(r@), //# C03.join_line_comments_end_their_line
+""", edits=[
+            Hole("trivia.extend(second);", "crate::verif::extend_vec_token(&mut trivia, second);\n    let ghost all = trivia@;", kind="wrapper", why="Vec::extend with a Vec: appends (class B); the joined list gets a ghost name"),
+            Hole("for token in trivia {", "for token in gi: trivia {", kind="ghost-name", why="names Verus' ghost iterator of the loop (no executable effect)"),
+            Hole("joined.last().map_or(false, trivia_is_whitespace)", "crate::verif::last_is_whitespace(&joined)", kind="wrapper", why="Option::map_or with a function value", optional=True),
+            After("for token in gi: trivia {", "proof { lemma_take_push(all, gi.index@ as int); lemma_cms_push(all.take(gi.index@ as int), token); }\n        let ghost j0 = joined@;"),
+            Loop("for token in gi: trivia", """
+        invariant
+            gi.seq() == all, all == first@ + second@,
+            cms(joined@) == cms(all.take(gi.index@ as int)), //# C03.join_loop
+            line_ok(joined@), //# C03.join_loop
+            behind_singleline_comment == open_at_end(joined@), //# C03.join_loop
+"""),
+            Loop("while crate::verif::last_is_whitespace(&joined)", """
+            invariant
+                cms(joined@) == cms(j0), line_ok(joined@), open_at_end(joined@),
+                joined@.len() <= j0.len(), joined@ == j0.take(joined@.len() as int),
+            decreases joined@.len(),
+""", enter="proof { lemma_cms_push_ws(joined@.drop_last(), joined@.last()); assert(joined@.drop_last().push(joined@.last()) =~= joined@); lemma_open_drop_ws(joined@); lemma_line_ok_prefix(joined@, joined@.len() - 1); }\n let ghost j1 = joined@;", step="proof { assert(joined@ =~= j1.drop_last()); assert(joined@ =~= j0.take(joined@.len() as int)); }"),
+            Before("joined.push(create_newline_trivia(ctx));", "let ghost ja = joined@;", optional=True),
+            After("joined.push(create_newline_trivia(ctx));", "proof { let x = joined@.last(); assert(joined@ =~= ja.push(x)); lemma_newline_for_is_nl(x, ctx.config); lemma_cms_push_ws(ja, x); lemma_push_nl(ja, x); }", optional=True),
+            Before("joined.push(create_indent_trivia(ctx, shape));", "let ghost jb = joined@;", optional=True),
+            After("joined.push(create_indent_trivia(ctx, shape));", "proof { let x = joined@.last(); assert(joined@ =~= jb.push(x)); lemma_cms_push_ws(jb, x); lemma_push_plain_ws(jb, x); }", optional=True),
+            Before("joined.push(token);", "let ghost j2 = joined@;"),
+            After("joined.push(token);", "proof { assert(joined@ =~= j2.push(token)); lemma_cms_push(j2, token); lemma_push_token(j2, token); }"),
+            Hole("    }\n\n    joined\n", "    }\n    proof { assert(all.take(all.len() as int) =~= all); }\n    joined\n", kind="ghost-insert", why="proof hint: the whole list is its own prefix"),
+        ]),
+        Raw("""
+#[verifier::external_body] pub fn last_is_whitespace(v: &Vec<Token>) -> (r: bool) ensures r == (v@.len() > 0 && token_type_of(v@.last()) is Whitespace) { unimplemented!() /* v.last().map_or(false, trivia_is_whitespace) */ }
+""", module="verif"),
+        Raw("""
+// a prefix of a list in which no comment stands behind a single line comment is such a list
+pub proof fn lemma_line_ok_prefix(v: Seq<Token>, n: int)
+    requires line_ok(v), 0 <= n <= v.len(), ensures line_ok(v.take(n)),
+{
+    let p = v.take(n);
+    assert forall|i: int, j: int| 0 <= i < j < p.len() && is_lc(#[trigger] p[i]) && is_cmt(#[trigger] p[j]) implies nl_between(p, i, j) by {
+        assert(is_lc(v[i]) && is_cmt(v[j]));
+        let k = choose|k: int| i < k < j && is_nl(#[trigger] v[k]);
+        assert(is_nl(p[k]));
+    }
+}
+// dropping a whitespace token that is no newline... or any whitespace at the end of an open list: the list stays open (a newline cannot stand there)
+pub proof fn lemma_open_drop_ws(v: Seq<Token>)
+    requires open_at_end(v), v.len() > 0, token_type_of(v.last()) is Whitespace, ensures open_at_end(v.drop_last()),
+{
+    let i = choose|i: int| 0 <= i < v.len() && is_lc(#[trigger] v[i]) && !nl_between(v, i, v.len() as int);
+    let d = v.drop_last();
+    assert(i < v.len() - 1);
+    assert(is_lc(d[i]));
+    if nl_between(d, i, d.len() as int) { let k = choose|k: int| i < k < d.len() && is_nl(#[trigger] d[k]); assert(is_nl(v[k])); assert(nl_between(v, i, v.len() as int)); }
+}
+pub proof fn lemma_push_nl(v: Seq<Token>, x: Token)
+    requires line_ok(v), is_nl(x), token_type_of(x) is Whitespace, ensures line_ok(v.push(x)), !open_at_end(v.push(x)),
+{
+    let w = v.push(x);
+    assert forall|i: int, j: int| 0 <= i < j < w.len() && is_lc(#[trigger] w[i]) && is_cmt(#[trigger] w[j]) implies nl_between(w, i, j) by {
+        assert(j < v.len()); assert(is_lc(v[i]) && is_cmt(v[j]));
+        let k = choose|k: int| i < k < j && is_nl(#[trigger] v[k]); assert(is_nl(w[k]));
+    }
+    if open_at_end(w) {
+        let i = choose|i: int| 0 <= i < w.len() && is_lc(#[trigger] w[i]) && !nl_between(w, i, w.len() as int);
+        assert(i < v.len()); assert(is_nl(w[v.len() as int])); assert(nl_between(w, i, w.len() as int));
+    }
+}
+pub proof fn lemma_push_plain_ws(v: Seq<Token>, x: Token)
+    requires line_ok(v), token_type_of(x) is Whitespace, ensures line_ok(v.push(x)), !open_at_end(v) ==> !open_at_end(v.push(x)),
+{
+    let w = v.push(x);
+    assert forall|i: int, j: int| 0 <= i < j < w.len() && is_lc(#[trigger] w[i]) && is_cmt(#[trigger] w[j]) implies nl_between(w, i, j) by {
+        assert(j < v.len()); assert(is_lc(v[i]) && is_cmt(v[j]));
+        let k = choose|k: int| i < k < j && is_nl(#[trigger] v[k]); assert(is_nl(w[k]));
+    }
+    if open_at_end(w) && !open_at_end(v) {
+        let i = choose|i: int| 0 <= i < w.len() && is_lc(#[trigger] w[i]) && !nl_between(w, i, w.len() as int);
+        assert(i < v.len()); assert(is_lc(v[i]));
+        assert(nl_between(v, i, v.len() as int));
+        let k = choose|k: int| i < k < v.len() && is_nl(#[trigger] v[k]); assert(is_nl(w[k]));
+    }
+}
+// pushing any token behind a list: a comment may only be pushed when the list is not open
+pub proof fn lemma_push_token(v: Seq<Token>, x: Token)
+    requires line_ok(v),
+    ensures (is_cmt(x) ==> !open_at_end(v)) ==> line_ok(v.push(x)),      // (stated as an implication so that code which pushes a comment behind an open line fails the loop invariant, not this call)
+            open_at_end(v.push(x)) == (if is_lc(x) { true } else if is_nl(x) { false } else { open_at_end(v) }),
+{
+    let w = v.push(x);
+    let n = v.len() as int;
+    if is_cmt(x) ==> !open_at_end(v) {
+    assert forall|i: int, j: int| 0 <= i < j < w.len() && is_lc(#[trigger] w[i]) && is_cmt(#[trigger] w[j]) implies nl_between(w, i, j) by {
+        assert(is_lc(v[i]));
+        if j < n { assert(is_cmt(v[j])); let k = choose|k: int| i < k < j && is_nl(#[trigger] v[k]); assert(is_nl(w[k])); }
+        else { assert(is_cmt(x)); assert(nl_between(v, i, n)); let k = choose|k: int| i < k < n && is_nl(#[trigger] v[k]); assert(is_nl(w[k])); }
+    }
+    }
+    if is_lc(x) {
+        assert(is_lc(w[n]));
+        if nl_between(w, n, w.len() as int) { let k = choose|k: int| n < k < w.len() && is_nl(#[trigger] w[k]); assert(false); }
+    } else if is_nl(x) {
+        if open_at_end(w) { let i = choose|i: int| 0 <= i < w.len() && is_lc(#[trigger] w[i]) && !nl_between(w, i, w.len() as int); assert(i < n); assert(is_nl(w[n])); assert(nl_between(w, i, w.len() as int)); }
+    } else {
+        if open_at_end(v) {
+            let i = choose|i: int| 0 <= i < v.len() && is_lc(#[trigger] v[i]) && !nl_between(v, i, n);
+            assert(is_lc(w[i]));
+            if nl_between(w, i, w.len() as int) { let k = choose|k: int| i < k < w.len() && is_nl(#[trigger] w[k]); if k < n { assert(is_nl(v[k])); assert(nl_between(v, i, n)); } }
+        }
+        if open_at_end(w) {
+            let i = choose|i: int| 0 <= i < w.len() && is_lc(#[trigger] w[i]) && !nl_between(w, i, w.len() as int);
+            assert(i < n); assert(is_lc(v[i]));
+            if nl_between(v, i, n) { let k = choose|k: int| i < k < n && is_nl(#[trigger] v[k]); assert(is_nl(w[k])); assert(nl_between(w, i, w.len() as int)); }
+        }
+    }
+}
+""", module="formatters::trivia_util"),
     ]
     return its
 
 LABELS = {
+    "C03.join_keeps_comments": dict(props=["C03"], text="join_trailing_trivia: the comments of the two lists come out in order, none dropped, none added (only whitespace is removed or created)"),
+    "C03.join_line_comments_end_their_line": dict(props=["C03", "C01"], text="join_trailing_trivia: in the joined list no comment stands behind a single line comment on the same line (it would become part of that comment: D28)"),
+    "C03.join_loop": dict(props=["C03", "C01"], text="join_trailing_trivia loop invariant: the comments so far are kept, no comment behind a single line comment, and the flag says whether the list ends on a line a single line comment has taken over"),
     "C11.quote_choice": dict(props=["C11", "C04"], text="get_quote_to_use: forced styles force; AutoPrefer* use the preferred quote unless the other quote character occurs strictly less often in the body"),
     "C03.token_text": dict(props=["C03", "C02", "C04", "C10"], text="format_token: token kind kept; identifiers/symbols/whitespace/interpolated strings unchanged; line comment/shebang text only right-trimmed; block comment and long string only newline-normalised (level kept); number only gets a 0 before a leading `.`; quoted string re-quoted per quote_choice with the same value (escape rewriting assumed)"),
     "C03.no_comment_created": dict(props=["C03", "C10"], text="format_token: the extra leading/trailing trivia it asks for are configured newline / indent / space tokens only"),
